@@ -458,14 +458,22 @@ class PSBaseParser:
         elif c in ESC_STRING:
             self._curtoken += bytes((ESC_STRING[c],))
 
-        elif c == b"\r" and len(s) > i + 1 and s[i + 1 : i + 2] == b"\n":
+        elif c == b"\r":
             # If current and next character is \r\n skip both because enters
-            # after a \ are ignored
-            i += 1
+            # after a \ are ignored.  The \n may only arrive with the next
+            # buffer, so it is looked for in a state of its own.
+            self._parse1 = self._parse_string_cr
+            return i + 1
 
         # default action
         self._parse1 = self._parse_string
         return i + 1
+
+    def _parse_string_cr(self, s: bytes, i: int) -> int:
+        self._parse1 = self._parse_string
+        if s[i : i + 1] == b"\n":
+            return i + 1
+        return i
 
     def _parse_wopen(self, s: bytes, i: int) -> int:
         c = s[i : i + 1]
